@@ -40,36 +40,38 @@ var keyNames = map[string]string{
 
 // the concrete annotation texts of the payload ids of Inject.tla
 var payloads = map[string]string{
-	"D1":   "- path: /dev/d1\n  type: c\n  major: 1\n  minor: 3\n",
-	"D2":   "- path: /dev/d2\n  type: b\n  major: 8\n  minor: 0\n  file_mode: 420\n  uid: 1\n  gid: 2\n- path: /dev/d3\n  type: c\n  major: 4\n  minor: 5\n",
-	"D3":   "- path: /dev/d4\n  type: c\n  major: 10\n  minor: 200\n  uid: 7\n",
-	"D4":   "[{path: /dev/d5, type: c, major: 1, minor: 5}]",
-	"Dbad": "- path: /dev/d9\n  major: not-a-number\n",
-	"M1":   "- source: /src1\n  destination: /m1\n  type: bind\n  options:\n  - ro\n  - rbind\n",
-	"M2":   "- source: /src2\n  destination: /m2\n  type: tmpfs\n- source: /src3\n  destination: /m2/sub\n  type: bind\n  options: [rw]\n",
-	"M3":   "- source: /src4\n  destination: /m3\n  type: bind\n",
-	"M4":   "[{source: /src5, destination: /m4, type: bind, options: [ro]}]",
-	"Mbad": "- destination: [unclosed\n",
-	"C1":   "- vendor.com/dev=a\n",
-	"C2":   "- vendor.com/dev=b\n- other.io/gpu=0\n",
-	"C3":   "[vendor.com/dev=c]",
-	"C4":   "- vendor.com/dev=d\n",
-	"Cbad": "{not: a-list}",
-	"U1":   "- type: nofile\n  hard: 10\n  soft: 5\n",
-	"U2":   "- type: RLIMIT_CORE\n  hard: 0\n  soft: 0\n- type: Rlimit_nproc\n  hard: 7\n  soft: 7\n",
-	"U3":   "- type: as\n  hard: 9\n  soft: 1\n",
-	"U4":   "- type: STACK\n  hard: 8\n  soft: 8\n",
+	"D1":     "- path: /dev/d1\n  type: c\n  major: 1\n  minor: 3\n",
+	"D2":     "- path: /dev/d2\n  type: b\n  major: 8\n  minor: 0\n  file_mode: 420\n  uid: 1\n  gid: 2\n- path: /dev/d3\n  type: c\n  major: 4\n  minor: 5\n",
+	"D3":     "- path: /dev/d4\n  type: c\n  major: 10\n  minor: 200\n  uid: 7\n",
+	"D4":     "[{path: /dev/d5, type: c, major: 1, minor: 5}]",
+	"Dbad":   "- path: /dev/d9\n  major: not-a-number\n",
+	"M1":     "- source: /src1\n  destination: /m1\n  type: bind\n  options:\n  - ro\n  - rbind\n",
+	"M2":     "- source: /src2\n  destination: /m2\n  type: tmpfs\n- source: /src3\n  destination: /m2/sub\n  type: bind\n  options: [rw]\n",
+	"M3":     "- source: /src4\n  destination: /m3\n  type: bind\n",
+	"M4":     "[{source: /src5, destination: /m4, type: bind, options: [ro]}]",
+	"Mbad":   "- destination: [unclosed\n",
+	"C1":     "- vendor.com/dev=a\n",
+	"C2":     "- vendor.com/dev=b\n- other.io/gpu=0\n",
+	"C3":     "[vendor.com/dev=c]",
+	"C4":     "- vendor.com/dev=d\n",
+	"Cbad":   "{not: a-list}",
+	"U1":     "- type: nofile\n  hard: 10\n  soft: 5\n",
+	"U2":     "- type: RLIMIT_CORE\n  hard: 0\n  soft: 0\n- type: Rlimit_nproc\n  hard: 7\n  soft: 7\n",
+	"U3":     "- type: as\n  hard: 9\n  soft: 1\n",
+	"U4":     "- type: STACK\n  hard: 8\n  soft: 8\n",
 	"Uempty": "[]",
+	"M5":     "- source: /src6\n  destination: /m5\n",
+	"Udup":   "- type: RLIMIT_NOFILE\n  hard: 1024\n  soft: 512\n- type: core\n  hard: 0\n  soft: 0\n- type: nofile\n  hard: 8192\n  soft: 2048\n",
 	// present but empty annotations: they select their scope and describe nothing
 	"Dempty": "", "Mempty": "", "Cempty": "",
 	// unlimited (RLIM_INFINITY) on either side
-	"Uinf1": "- type: nofile\n  hard: 18446744073709551615\n  soft: 65536\n",
-	"Uinf2": "- type: nofile\n  hard: 65536\n  soft: 18446744073709551615\n",
-	"Uinf3": "- type: core\n  hard: 18446744073709551615\n  soft: 18446744073709551615\n",
-	"Uinf4": "- type: as\n  hard: 9223372036854775808\n  soft: 1\n",
-	"Ubad":   "- type: [unclosed\n",
-	"Utype":  "- type: bogus\n  hard: 1\n  soft: 1\n",
-	"Utype2": "- type: RLIMIT_\n  hard: 1\n  soft: 1\n",
+	"Uinf1":     "- type: nofile\n  hard: 18446744073709551615\n  soft: 65536\n",
+	"Uinf2":     "- type: nofile\n  hard: 65536\n  soft: 18446744073709551615\n",
+	"Uinf3":     "- type: core\n  hard: 18446744073709551615\n  soft: 18446744073709551615\n",
+	"Uinf4":     "- type: as\n  hard: 9223372036854775808\n  soft: 1\n",
+	"Ubad":      "- type: [unclosed\n",
+	"Utype":     "- type: bogus\n  hard: 1\n  soft: 1\n",
+	"Utype2":    "- type: RLIMIT_\n  hard: 1\n  soft: 1\n",
 	"Uhardsoft": "- type: nofile\n  hard: 1\n  soft: 2\n",
 }
 
